@@ -16,9 +16,11 @@
 
   Known findings (the code really fails the property there; witnesses replayed on the real code
   by the check; `knownIgnored*`, `knownSilent`, `knownOptOutIneffective` are generated from
-  known_findings.json): top-level `$not` (also directly inside `$elemMatch`) is accepted and
-  ignored; three positions validate nothing (dead-end path, update matching no document,
-  clauses next to `$each` in `$addToSet`); options dropped silently by `find`, `find_one`,
+  known_findings.json): three positions validate nothing (a path reaching no value, update
+  matching no document, clauses next to `$each` in `$addToSet`) — the former finding "top-level
+  `$not` (also directly inside `$elemMatch`) is accepted and ignored" is fixed in the library
+  (`ignored:queryTop:$not`, `ignored:queryElemMatch:$not`: `$not` is rejected at the top level
+  and evaluated on the element inside `$elemMatch`); options dropped silently by `find`, `find_one`,
   `aggregate`, `find_one_and_*`, `create_index`, `Database.command`, bulk `add_*`; options that
   still raise after `ignore_feature` (`aggregate(session)`, `Database` methods).
   When a defect is fixed in /repo: set its entry to "fixed" in known_findings.json, and once no
@@ -35,8 +37,8 @@ open MongoModel.Vocab
 def no_vocab_name_ignored_full : Prop :=
   ∀ e ∈ Generated.vocab, e.disp ≠ .ignored
 
-/-- It is false of the code as it stands (known finding `ignored:queryTop:$not` and the lazy
-    positions): the regenerated table contains an `ignored` entry. -/
+/-- It is false of the code as it stands (the lazy positions): the regenerated table contains
+    an `ignored` entry. -/
 theorem no_vocab_name_ignored_full_fails : ¬ no_vocab_name_ignored_full := by
   intro h
   obtain ⟨e, he, hd⟩ := List.any_eq_true.mp Proofs.C20.some_entry_ignored
@@ -111,9 +113,18 @@ theorem ignored_only_structurally (T : Tables Code) (pos : Position) (k : Code)
       (k ∈ T.logicalConst ∧ k ∈ T.logicalOps ∧ (pos = .queryTop ∨ pos = .queryElemMatch)) :=
   Proofs.C20.ignored_only_structurally T pos k h
 
-/-- the second alternative is inhabited (by tables shaped like today's `LOGICAL_OPERATOR_MAP`) -/
-example : dispatch { Tables.empty with logicalOps := [cNot], logicalConst := [cNot] } .queryTop cNot
+/-- the second alternative is inhabited by tables with a constant connective other than `$not`
+    (today's `LOGICAL_OPERATOR_MAP` has none: its only constant entry, `$not`, is no longer taken
+    at the top level — the repaired finding `ignored:queryTop:$not`) -/
+example : dispatch { Tables.empty with logicalOps := [cAll], logicalConst := [cAll] } .queryTop cAll
     = .ignored := by decide +kernel
+
+/-- `$not` at the top level of a filter raises, and is evaluated inside `$elemMatch`, whatever
+    the tables say about `LOGICAL_OPERATOR_MAP` -/
+example : dispatch { Tables.empty with logicalOps := [cNot], logicalConst := [cNot] } .queryTop cNot
+    = .raisesOther ∧
+    dispatch { Tables.empty with logicalOps := [cNot], logicalConst := [cNot] } .queryElemMatch cNot
+    = .implemented := by decide +kernel
 
 /-- Stages the code declares without a handler, and everything else that has no handler, raise
     NotImplementedError. -/
